@@ -17,11 +17,8 @@ REGISTRY["C18"] = l2("C18", "typed", ["harness/l2/typed_driver.c"], ["harness/l2
            "comm_thread_multiple in {default, 0 (reshape on the communication thread), 1}, network latency/jitter/heavy tail/eager limit/partial+lagging Testsome/late send completion. "
            "Excluded as documented unsupported (tests/collections/reshape/testing_remote_multiple_outs_same_pred_flow.c): one flow instance sending two datatypes to one remote rank with short messages on "
            "(short messages are switched off for such plans). Not generated: dependencies whose two sides name different shapes (lower -> upper permutations), typed reads/writes of the collection ([type_data]). "
-           "NOT COVERED BY DEFAULT, because the unchanged runtime fails there (genuine defects, each reproduced on the real runtime: tools/realrun/build_typed.sh + findings/ptg_typed_*.plan; "
-           "plans are normalised away from these shapes unless asked for with --knob shapes=<mask>, violations of such plans carry the tag in their detail): "
-           "shapes=1 '+mixed-local-types' one flow instance with consumers on the producer's rank under differing [type = ..] on the output dependencies (an untyped dependency next to a typed one suffices): "
-           "wrong elements in the converted copy, or SIGSEGV in parsec_local_reshape_cb; shapes=2 '+differing-dest-sets-chain' = KF-PTG-CHAIN-BCAST-DIFFERING-SETS (chain/default broadcast topology replaced by star/binomial); "
-           "shapes=4 '+packed-reception-with-other-output' packed reception next to another output of the same flow instance on one rank: SIGSEGV on the communication thread. "
-           "So the default check covers fan-out with differing REMOTE types and with ONE local type per flow instance and rank",
-    # knobs=["shapes=7"] generates the three shapes in half of the plans (to be switched on once the findings are recorded in known_findings.json, keyed by the tags above)
-    quick=(120, 200000), thorough=(1800, 20000000), knobs=[], prebuild=_typed_prebuild)
+           "Plan shapes that used to fail on the pinned tree and are ordinary plans since the fixes e541dd0 / 95e4216: consumers on the producer's rank under differing [type = ..] on one flow instance "
+           "(mixed local types), packed reception next to another output of the same flow instance on one rank. Shape '+differing-dest-sets-chain' (15% of the plans) is the open finding "
+           "KF-PTG-CHAIN-BCAST-DIFFERING-SETS; other plans replace the chain/default broadcast topology by star/binomial when destination sets differ",
+    # C18_KNOBS="shapes=<mask>" forces the shape mask (1 mixed local types, 2 differing destination sets under chain broadcast, 4 packed reception next to another output)
+    quick=(120, 200000), thorough=(1800, 20000000), knobs=_os.environ.get("C18_KNOBS", "").split(), prebuild=_typed_prebuild)
